@@ -183,6 +183,9 @@ func main() {
 	canarySeen := map[string]bool{}
 	printedKnown := map[string]bool{}
 	for _, o := range obls {
+		if *verbose {
+			fmt.Fprintf(os.Stderr, "    %-9s %-70s %s %s\n", o.Status, o.Name, o.Pos, o.Descr)
+		}
 		solverMs += o.Ms
 		if o.ExpectSat {
 			if o.Kind == "cover" {
@@ -229,7 +232,8 @@ func main() {
 				}
 				inBase := baseline == nil || baseline[o.Key]
 				if o.Status == "unknown" && !inBase {
-					lines = append(lines, fmt.Sprintf("UNDECIDED property=%s obligation=%s (new obligation, solver undecided) %s", p, o.Name, o.Pos))
+					rp := writeReplay(outDir, p, o)
+					lines = append(lines, fmt.Sprintf("UNDECIDED property=%s obligation=%s (new obligation, solver undecided) %s detail=%s", p, o.Name, o.Pos, rp))
 					if exit == 0 {
 						exit = 2
 					}
